@@ -436,3 +436,71 @@ func typeOnlyArgs(call ssa.CallInstruction) (map[ssa.Value]bool, []ssa.Value) {
 	}
 	return out, elems
 }
+
+// lastCodeNotRecovery (C17): the replay guard stores the submitted TOTP code
+// in clear by design (a spent 30-second value; C17's exception table). That
+// exception is about a value that is only ever a TOTP code: once the same
+// submitted value is also tried as a recovery code, a long-lived secret sits
+// in the last-code column verbatim.
+func (c *Ctx) lastCodeNotRecovery(rule string) {
+	r := c.R
+	n := 0
+	for _, fn := range c.P.Funcs {
+		if !strings.HasPrefix(pkgOf(fn), "ab/otp/twofactor") || fn.Blocks == nil {
+			continue
+		}
+		puts := c.userCalls(fn, "PutTOTPLastCode")
+		if len(puts) == 0 {
+			continue
+		}
+		n++
+		stored := map[ssa.Value]bool{}
+		for _, pc := range puts {
+			for _, o := range c.rawOrigins(Arg(pc, 0)) {
+				if o.Kind == "call" {
+					stored[o.V] = true
+				}
+			}
+		}
+		bad, at := "", "-"
+		// the recovery comparison here or in a helper this function hands the value to
+		var visit func(f *ssa.Function, args map[ssa.Value]bool, depth int)
+		visit = func(f *ssa.Function, tainted map[ssa.Value]bool, depth int) {
+			for _, call := range Calls(f) {
+				cc := call.Common()
+				if Callee(call) == fnUseRecoveryCode && len(cc.Args) >= 2 {
+					for _, o := range c.rawOrigins(cc.Args[1]) {
+						if (o.Kind == "call" && stored[o.V]) || tainted[o.V] {
+							bad, at = "the value recorded with PutTOTPLastCode is also tried as a recovery code", posf(c, call)
+						}
+					}
+					continue
+				}
+				g := StaticCallee(call)
+				if g == nil || g.Blocks == nil || depth >= 2 || !strings.HasPrefix(pkgOf(g), "ab/otp/twofactor") {
+					continue
+				}
+				sub := map[ssa.Value]bool{}
+				for i, a := range cc.Args {
+					hit := false
+					for _, o := range c.rawOrigins(a) {
+						if (o.Kind == "call" && stored[o.V]) || tainted[o.V] {
+							hit = true
+						}
+					}
+					if hit && i < len(g.Params) {
+						sub[g.Params[i]] = true
+					}
+				}
+				if len(sub) > 0 {
+					visit(g, sub, depth+1)
+				}
+			}
+		}
+		visit(fn, map[ssa.Value]bool{}, 0)
+		r.Check(bad == "", rule, FuncName(fn), "last code is never a recovery code", at, "the value stored in clear is used as a TOTP code only", bad+": a recovery code typed there is stored verbatim next to the bcrypt hashes of the others")
+	}
+	if n == 0 {
+		r.Unknown(rule, "-", "PutTOTPLastCode", "-", "no writer of the TOTP last code found (reference: validate, PostConfirm)")
+	}
+}
